@@ -223,7 +223,8 @@ def brentsrootvec(f, bounds, tol=None, verbose=False, return_interval=False, acc
     if tol < D.epsilon(lower_bound.dtype):
         tol = D.epsilon(lower_bound.dtype)
     tol = D.ar_numpy.asarray(tol, like=lower_bound)
-    a, b = D.ar_numpy.asarray(lower_bound, like=tol), D.ar_numpy.asarray(upper_bound, like=tol)
+    # (copies: the search narrows and swaps its brackets in place, the arrays handed over stay the caller's)
+    a, b = D.ar_numpy.copy(D.ar_numpy.asarray(lower_bound, like=tol)), D.ar_numpy.copy(D.ar_numpy.asarray(upper_bound, like=tol))
     
     if isinstance(f, list):
         def _f(x, mask=None):
